@@ -40,6 +40,54 @@ pub fn oneline(s: &str) -> String {
     s.replace('\\', "\\\\").replace('\n', "\\n").replace('\r', "\\r")
 }
 
+pub fn unescape(s: &str) -> String {
+    let mut out = String::new();
+    let mut it = s.chars();
+    while let Some(c) = it.next() {
+        if c == '\\' {
+            match it.next() {
+                Some('n') => out.push('\n'),
+                Some('r') => out.push('\r'),
+                Some('\\') => out.push('\\'),
+                Some(x) => {
+                    out.push('\\');
+                    out.push(x)
+                }
+                None => out.push('\\'),
+            }
+        } else {
+            out.push(c);
+        }
+    }
+    out
+}
+
+/// Reads protocol cases from stdin and re-runs those that `parse` can rebuild.
+pub fn replay_stdin<C>(parse: impl Fn(&[String]) -> Option<C>, run: impl Fn(&str, &C, &mut String)) -> String {
+    let mut buf = String::new();
+    std::io::Read::read_to_string(&mut std::io::stdin(), &mut buf).unwrap();
+    let mut cur: Vec<String> = Vec::new();
+    let mut out = String::new();
+    for l in buf.lines() {
+        if l.starts_with("case ") {
+            cur = vec![l.to_string()];
+        } else if l == "end" {
+            if let Some(c) = parse(&cur) {
+                let id = cur[0].split_whitespace().nth(1).unwrap_or("R").to_string();
+                run(&id, &c, &mut out);
+            }
+            cur.clear();
+        } else if !cur.is_empty() {
+            cur.push(l.to_string());
+        }
+    }
+    if out.is_empty() {
+        eprintln!("no replayable case on stdin");
+        std::process::exit(2);
+    }
+    out
+}
+
 pub fn dec(s: &str) -> Decimal {
     Decimal::from_str_exact(s).unwrap()
 }
